@@ -98,6 +98,7 @@ func runC01(r *ev.Run) {
 	fwRun(r, "C01")
 	// (iv) the schema zoo: layouts enumerated, content fixed
 	zooRun(r, "C01")
+	c01Defaults(r)
 }
 
 func c01Image(r *ev.Run, si *ShapeImage, table string, lists [][]string) {
@@ -356,6 +357,75 @@ INSERT INTO z SELECT i, i%%13, CASE i%%3 WHEN 0 THEN 'k'||(i%%5) WHEN 1 THEN 'K'
 		}},
 	}
 	return s
+}
+
+var defaultTypes = []string{"", "INTEGER", "INT", "REAL", "NUMERIC", "TEXT", "BLOB", "VARCHAR(10)", "FLOAT", "BOOLEAN", "DATETIME"}
+var defaultLiterals = []string{"7", "'7'", "-3", "'-3'", "2.5", "'2.5'", "'abc'", "x'00ff'", "NULL", "1e3", "'1e3'", "' 12 '", "9223372036854775807", "'9223372036854775808'", "TRUE", "false", "''", "0", "'0x10'", "+5", "'2006-01-02 15:04:05'", "abc", "'TRUE'"}
+
+// c01Defaults: the DEFAULT of a column added by ALTER TABLE, for every declared type x literal form, read
+// from a row stored before the ALTER: the value SQLite reports (or the table is rejected). One table per
+// pair, one signature per literal form.
+func c01Defaults(r *ev.Run) {
+	st := defaultsScript()
+	l, err := lite.OpenMem()
+	if err != nil {
+		r.Harness("lite: %v", err)
+		return
+	}
+	defer l.Close()
+	for _, s := range st {
+		if err := l.Exec(s); err != nil {
+			r.Harness("defaults script %q: %v", s, err)
+			return
+		}
+	}
+	img := l.Serialize()
+	r.Validated(1)
+	r.StateBytes(img)
+	h, _, _, err := vpager.OpenImage(img)
+	if err != nil {
+		r.Violation("C01:fw-open", fmt.Sprintf("database written by SQLite refused: %v", err), nil)
+		return
+	}
+	n := 0
+	for _, ty := range defaultTypes {
+		for _, lit := range defaultLiterals {
+			n++
+			tn := fmt.Sprintf("d%d", n)
+			art := map[string]interface{}{"family": "defaults", "table": tn, "definition": fmt.Sprintf("ALTER TABLE %s ADD COLUMN c %s DEFAULT %s", tn, ty, lit)}
+			want, err := l.Query("SELECT id, c FROM " + tn + " ORDER BY id")
+			if err != nil {
+				r.Harness("defaults query: %v", err)
+				continue
+			}
+			r.Eval(1)
+			r.Trans(1)
+			got, err := SelectAll(h, tn, "id", "c")
+			if err != nil {
+				r.Outcome("default-rejected:" + lit)
+				continue
+			}
+			r.Nontrivial(tn)
+			if !RowsEq(got, want, true) {
+				r.Violation("C01:default:"+strings.ToUpper(lit), fmt.Sprintf("c %s DEFAULT %s, row stored before the column was added: got %v, SQLite %v", ty, lit, RowsS(got), RowsS(want)), art)
+			}
+		}
+	}
+}
+
+// defaultsScript: one table per (declared type, DEFAULT literal), each with a row stored before the
+// column was added (a DEFAULT sqlittle's grammar does not know only loses that table)
+func defaultsScript() []string {
+	var alter []string
+	n := 0
+	for _, ty := range defaultTypes {
+		for _, lit := range defaultLiterals {
+			n++
+			alter = append(alter, fmt.Sprintf("CREATE TABLE d%d (id INTEGER PRIMARY KEY)", n), fmt.Sprintf("INSERT INTO d%d VALUES (1)", n),
+				fmt.Sprintf("ALTER TABLE d%d ADD COLUMN c %s DEFAULT %s", n, ty, lit), fmt.Sprintf("INSERT INTO d%d (id) VALUES (2)", n))
+		}
+	}
+	return alter
 }
 
 // fwRun runs every script on every page size; after every statement the
